@@ -66,6 +66,10 @@ func init() {
 }
 
 func runC04(c *Ctx, r *Report) {
+	r.Rule("C04/get-prompt-passthrough", "the generic driver hands the network driver the channel's prompt match unchanged", 1)
+	checkGenericGetPromptPassthrough(c, r, "C04/get-prompt-passthrough")
+	r.Rule("C04/level-cache-writers", "the cached privilege level is written only where it was determined from the device's prompt", 1)
+	checkLevelCacheWriters(c, r, "C04/level-cache-writers")
 	importFoundation(c, r, "C04", "driver-options")
 	r.Rule("C04/pattern-recompiled", "buildPrivGraph recompiles every level's pattern unconditionally (UpdatePrivileges after an edit takes effect)", 1)
 	r.Rule("C04/always-fetches-prompt", "AcquirePriv reports success only after it fetched the device's prompt", 1)
